@@ -377,3 +377,54 @@ macro_rules! d3 {
 }
 d3!(d3_bound_3, 1_000, 40, 8, 12);
 d3!(d3_bound_5, 100_000, 40, 8, 12);
+
+/// D4 (C09): extreme write options, buffer of exactly `buffer_size_const` bytes. Each harness
+/// pins one region of the option space named by the property's quantifier ("min/max significant
+/// digits up to hundreds, exponent breaks across the whole exponent range"); the numeric front
+/// end is the symbolic decimal of D2/D3 with a short mantissa.
+macro_rules! d4 {
+    ($name:ident, $u:literal, $cap:expr, |$maxd:ident, $mind:ident, $pb:ident, $nb:ident, $sci:ident| $constraint:expr) => {
+        #[kani::proof]
+        #[kani::unwind($u)]
+        #[kani::stub(lexical_write_float::algorithm::to_decimal, stub_to_decimal)]
+        fn $name() {
+            let mant: u64 = kani::any();
+            kani::assume(mant >= 1 && mant < 1_000 && mant % 10 != 0);
+            let n = ndigits(mant) as i32;
+            let $sci: i32 = kani::any(); // scientific exponent of the value
+            let neg: bool = kani::any();
+            let $maxd: usize = kani::any();
+            let $mind: usize = kani::any();
+            let $pb: i32 = kani::any();
+            let $nb: i32 = kani::any();
+            kani::assume($constraint);
+            kani::assume($sci >= -320 && $sci <= 300);
+            kani::assume($maxd == 0 || $mind <= $maxd);
+            kani::assume($pb >= 0 && $nb <= 0);
+            let truncate: bool = kani::any();
+            let opts = WriteFloatOptions::builder()
+                .max_significant_digits(NonZeroUsize::new($maxd))
+                .min_significant_digits(NonZeroUsize::new($mind))
+                .positive_exponent_break(NonZeroI32::new($pb))
+                .negative_exponent_break(NonZeroI32::new($nb))
+                .round_mode(if truncate { RoundMode::Truncate } else { RoundMode::Round })
+                .build_unchecked();
+            assert!(opts.is_valid());
+            let size = opts.buffer_size_const::<f64, STANDARD>();
+            assert!(size <= $cap, "harness buffer cap");
+            let mut buf = [0xAAu8; $cap];
+            let f = encode_f64(mant, $sci - (n - 1), neg);
+            let out = lc::write_with_options::<f64, STANDARD>(f, &mut buf[..size], &opts);
+            assert!(out.len() <= size);
+            assert!(out.len() >= 1 && (out[0] == b'-') == neg);
+            kani::cover!(out.len() + 4 > size, "output within 4 bytes of the bound");
+            kani::cover!(neg, "negative");
+        }
+    };
+}
+// many minimum digits, default breaks: scientific and positional notation
+d4!(d4_mindigits, 66, 72, |maxd, mind, pb, nb, sci| maxd == 0 && mind >= 54 && mind <= 58 && pb == 0 && nb == 0);
+// far negative break with few maximum digits: long run of leading zeros
+d4!(d4_negbreak, 66, 72, |maxd, mind, pb, nb, sci| maxd >= 1 && maxd <= 6 && mind == 0 && pb == 0 && nb <= -42 && nb >= -46 && sci <= -40 && sci >= -48);
+// far positive break with few maximum digits: rounding may carry into a new leading digit
+d4!(d4_posbreak, 70, 72, |maxd, mind, pb, nb, sci| maxd >= 1 && maxd <= 3 && mind == 0 && nb == 0 && pb >= 60 && pb <= 63 && sci >= 58 && sci <= 65);
